@@ -144,6 +144,7 @@ def run(ctx: Ctx) -> None:
     ctx.instance("C08.3/rust-invariant", "F/FC/FZ mirror invariant re-established by each of the 14 writes", inv_ok, 14)
     temps(ctx, py, rs)
     snapshot_masks(ctx, py, rs)
+    stepper_pairing(ctx, py)
     ctx.extra["exhaustive"] = True
 
 
@@ -160,6 +161,16 @@ def python_table(ctx: Ctx, py: PyProgram, names: list[str]) -> dict:
     subinfo = ev0.eval(ast.Attribute(value=ast.Name(id="Registers"), attr="_SUBREG_INFO", lineno=0))
     get_fn = py.func(isa.EMU_PY, "Registers.get")
     set_fn = py.func(isa.EMU_PY, "Registers.set")
+    # every other class-level constant of Registers (helper tables a refactor may introduce)
+    class_consts: dict = {}
+    rcls = py.need_cls(mod, "Registers")
+    for st in rcls.node.body:
+        tgt = st.targets[0] if isinstance(st, ast.Assign) and len(st.targets) == 1 else (st.target if isinstance(st, ast.AnnAssign) and st.value is not None else None)
+        if isinstance(tgt, ast.Name) and tgt.id not in ("BASE", "_SUBREG_INFO"):
+            try:
+                class_consts[tgt.id] = ev0.eval(ast.Attribute(value=ast.Name(id="Registers"), attr=tgt.id, lineno=0))
+            except NotConst:
+                pass
     tab = {}
     for w in names:
         values = {m: BitVec.sym(m.name, BASE_STORE_BITS.get(m.name, 24)) for m in base_set}
@@ -167,7 +178,7 @@ def python_table(ctx: Ctx, py: PyProgram, names: list[str]) -> dict:
         for m in list(values):
             if m.name in BASES:
                 values[m] = BitVec.sym(m.name, BASES[m.name])
-        selfobj = Term("Registers", (), {"_values": values, "BASE": base_set, "_SUBREG_INFO": subinfo, "call_sub_level": 0})
+        selfobj = Term("Registers", (), {**class_consts, "_values": values, "BASE": base_set, "_SUBREG_INFO": subinfo, "call_sub_level": 0})
         ev = PyEval(py, mod, {"self": selfobj, "reg": rn[w], "value": BitVec.sym("v", 32)}, budget=[200000])
         try:
             _exec_fn(ev, set_fn)
@@ -276,3 +287,32 @@ def snapshot_masks(ctx: Ctx, py: PyProgram, rs: RustProgram) -> None:
         if widths.get(name, 0) < arch_bits:
             ctx.violation("C08.4/snapshot-mask", f"register_width[{name}]", f"apply_registers masks {name} to {widths.get(name)} bits, register has {arch_bits}: a restored snapshot loses bits", rs.file_for(isa.LIB_RS))
     ctx.instance("C08.4/snapshot-mask", "snapshot layout / register_width keep every architectural bit of the 8 base registers", n, 8)
+
+
+def stepper_pairing(ctx: Ctx, py: PyProgram) -> None:
+    """CPURegistersSnapshot: every register captured by from_registers is written back whole by apply_to (`regs.set(R, self.field)`)."""
+    rel = "sc62015/pysc62015/stepper.py"
+    cap = py.func(rel, "CPURegistersSnapshot.from_registers")
+    app = py.func(rel, "CPURegistersSnapshot.apply_to")
+    captured: dict[str, str] = {}
+    for c in ast.walk(cap):
+        if isinstance(c, ast.Call) and isinstance(c.func, ast.Name) and c.func.id == "cls":
+            for kw in c.keywords:
+                v = kw.value
+                if isinstance(v, ast.Call) and unparse(v.func) == "regs.get" and v.args and unparse(v.args[0]).startswith("RegisterName."):
+                    captured[kw.arg] = unparse(v.args[0]).split(".")[-1]
+    if len(captured) < 8:
+        raise AnalysisError(f"CPURegistersSnapshot.from_registers: only {len(captured)} captured registers recognised")
+    restored: dict[str, str] = {}
+    for c in ast.walk(app):
+        if isinstance(c, ast.Call) and unparse(c.func) == "regs.set" and len(c.args) == 2 and unparse(c.args[0]).startswith("RegisterName."):
+            restored[unparse(c.args[0]).split(".")[-1]] = unparse(c.args[1])
+    n = 0
+    for fieldname, reg in sorted(captured.items()):
+        n += 1
+        got = restored.get(reg)
+        if got != f"self.{fieldname}":
+            ctx.violation("C08.4/snapshot-apply", f"{rel}::CPURegistersSnapshot.apply_to::{reg}",
+                          f"the snapshot captures {reg} into `{fieldname}` but apply_to {'writes `' + got + '`' if got else 'never writes ' + reg + ' back as a whole (e.g. only through set_flag)'}: "
+                          f"a snapshot applied to a fresh register file does not reproduce every readable value of {reg}", f"{rel}:{app.lineno}")
+    ctx.instance("C08.4/snapshot-apply", "registers captured by CPURegistersSnapshot.from_registers and written back whole by apply_to", n, 8)
